@@ -182,8 +182,15 @@ func (g *c06Gen) next(httpOnly bool) c06Msg {
 		return g.msg("removed+meta", "initialize", `{"protocolVersion":"2026-07-28","capabilities":{},"clientInfo":{"name":"x","version":"1"}}`, "full", false)
 	case x < 38:
 		return g.msg("removed-notif+meta", r.Choose("notifications/initialized", "notifications/roots/list_changed"), "{}", "full", true)
-	default:
+	case x < 39:
 		return g.msg("unknown", "foo/bar", "{}", "", false)
+	default:
+		// complete metadata on a request that is refused all the same (no such method; params of the wrong shape): a
+		// refused request establishes nothing
+		if r.Bool() {
+			return g.msg("unknown+meta", "foo/bar", "{}", "full", false)
+		}
+		return g.msg("undecodable+meta", "tools/call", `{"name":["echo"],"arguments":{}}`, "full", false)
 	}
 }
 
@@ -371,8 +378,11 @@ func runC06(c *vh.Case, spec c06Spec) {
 			if m.Meta == "badinfo" {
 				expectCode = -32602
 			}
-			if expectCode == 0 && removed[m.Method] {
+			if expectCode == 0 && (removed[m.Method] || m.Sym == "unknown+meta") {
 				expectCode = -32601
+			}
+			if expectCode == 0 && m.Sym == "undecodable+meta" {
+				expectCode = -32602
 			}
 			if expectCode != 0 {
 				rejects++
